@@ -292,7 +292,7 @@ PROPS = {
         "jobs": [
             {"name": "c19-regress", "pkg": HOOKS, "tests": ["TestVerifC19Regressions"]},
             {"name": "c19-single", "pkg": HOOKS, "tests": ["TestVerifC19SingleCallExhaustive"], "shards": {"quick": 8, "thorough": 8}, "timeout": {"quick": 900, "thorough": 3000}},
-            {"name": "c19-sched2", "pkg": HOOKS, "tests": ["TestVerifC19Schedules2", "TestVerifC19ExpireInFlight"]},
+            {"name": "c19-sched2", "pkg": HOOKS, "tests": ["TestVerifC19Schedules2", "TestVerifC19ExpireInFlight", "TestVerifC19CacheEntries"]},
             {"name": "c19-timeouts", "pkg": HOOKS, "tests": ["TestVerifC19Timeouts", "TestVerifC19EtagConfig"]},
             {"name": "c19-sched3", "pkg": HOOKS, "tests": ["TestVerifC19Schedules3"], "checks": {"quick": 3000, "thorough": 100}, "shards": {"quick": 2, "thorough": 12}, "timeout": {"quick": 900, "thorough": 3000}},
         ],
@@ -332,7 +332,7 @@ RULE_ADDENDA = {
     "C16": "Also generated: target deletion, target replacement and a stale target cache between syncs; selectors as matchExpressions; empty-string patch values; every target write is judged on the live object before/after it (UID, spec, foreign metadata).",
     "C17": "The concurrent-vs-sequential comparison includes the related-informer subscription counts.",
     "C18": "Also generated: failed subscribes to a resource discovery does not know yet (installed later); a handler still replaying while an object appears; widgets subscribed through a second served version with the delivered apiVersion checked; handlers with their own resync take 3 ms per event; every informer call runs under a 10 s watchdog.",
-    "C19": "Single calls also vary what the cache was warmed with (well-formed, unknown field, duplicate field).",
+    "C19": "Single calls also vary what the cache was warmed with (well-formed, unknown field, duplicate field); cache entries: first answer (200, 200 cut off mid-body, 500/404 with an ETag, undecodable 200) x second call about the same parent / another kind / namespace / name x 304/412/200.",
     "C20": "Also generated: a customize hook that names related resources, with the related LIST or the customize webhook hanging while the controller is stopped.",
 }
 for _k, _v in RULE_ADDENDA.items():
